@@ -1311,6 +1311,56 @@ def rule_anonymous_variables(cm, rep, rid):
                 rep.ok(rid, key, 'generated and source variable names are disjoint', vis.loc())
 
 
+def _collects_by_evaluation(cm, c, init, fld, as_list, has_vars):
+    """the ``variables`` property of class c evaluated on an instance whose field ``fld`` holds a variable node (or a list
+    with one) carrying a marked name: is the mark in the result?"""
+    from .symex import SymEx, New, Const, ListV, PathState, Sym
+    mods = ('yp_generator', 'yp_prolog_visitor')
+    sx = SymEx(cm.repo, inline=lambda f: f.module.name in mods and f.name != '_debug', opaque=lambda n: False, max_depth=12)
+    sx.max_steps = 50000
+
+    def variables_of(obj):
+        try:
+            v = sx.attr(obj, 'variables', PathState(), None, None)
+            if isinstance(v, tuple) and v and v[0] == 'bound' and v[1].is_property:
+                outs = sx.run(v[1], [obj], PathState(), with_self=True)
+                if len(outs) == 1:
+                    return outs[0][1]
+        except (AnalysisError, RecursionError):
+            pass
+        return None
+    marker = None
+    for qn in sorted(has_vars):
+        mc = cm.repo.cls(*qn.split('.', 1))
+        mi = cm.repo.lookup_method(mc, '__init__')
+        if mi is None or len(mi.params) != 2:
+            continue
+        res = variables_of(New(mc, [Const('MARK')]))
+        if isinstance(res, ListV) and len(res.items) == 1 and 'MARK' in repr(res.items[0]):
+            marker = mc
+            break
+    if marker is None or init is None:
+        return False
+    params = init.params[1:]
+    args = []
+    hit = False
+    for p in params:
+        # the constructor parameter that is stored in the field
+        stored = [t.attr for s_ in own_nodes(init.node) if isinstance(s_, ast.Assign) and is_name(s_.value, p)
+                  for t in s_.targets if is_self_attr(t)]
+        if fld in stored:
+            m = New(marker, [Const('MARK')])
+            args.append(ListV([m]) if as_list else m)
+            hit = True
+        else:
+            args.append(ListV([]) if any('list' == v[0] for f2 in stored for v in cm.flow.field(c.qname, f2)) else
+                        New(marker, [Const('other')]))
+    if not hit:
+        return False
+    res = variables_of(New(c, args))
+    return isinstance(res, ListV) and 'MARK' in repr(res)
+
+
 def rule_variable_coverage(cm, rep, rid):
     rep.rule(rid, 'sibling agreement: the "variables" property of every syntax-tree class mentions every field that can hold '
                   'a node with variables (flow analysis), so every variable the emitter can print is declared')
@@ -1323,7 +1373,20 @@ def rule_variable_coverage(cm, rep, rid):
                (c in cm.repo.instantiated() or 'variables' in c.methods)]
     def _always_empty(c):
         rets = [x for x in own_nodes(_prop(c).node) if isinstance(x, ast.Return)]
-        return bool(rets) and all(isinstance(r.value, ast.List) and not r.value.elts for r in rets)
+        if bool(rets) and all(isinstance(r.value, ast.List) and not r.value.elts for r in rets):
+            return True
+        # evaluated on an instance whose fields hold plain constants: an empty list means no field is consulted
+        from .symex import SymEx, New, Const, ListV, PathState
+        init = cm.repo.lookup_method(c, '__init__')
+        sx = SymEx(cm.repo, inline=lambda f: f.module.name in ('yp_generator', 'yp_prolog_visitor') and f.name != '_debug',
+                   opaque=lambda n: False, max_depth=6)
+        sx.max_steps = 20000
+        try:
+            outs = sx.run(_prop(c), [New(c, [Const('k%d' % i) for i in range(len(init.params) - 1)] if init is not None else [])],
+                          PathState(), with_self=True)
+        except (AnalysisError, RecursionError):
+            return False
+        return len(outs) == 1 and isinstance(outs[0][1], ListV) and not outs[0][1].items
     has_vars = {c.qname for c in classes if not _always_empty(c)}
     for c in classes:
         init = cm.repo.lookup_method(c, '__init__')
@@ -1346,6 +1409,8 @@ def rule_variable_coverage(cm, rep, rid):
             key = '%s.%s' % (c.qname, fld)
             if re.search(r'self\.%s\b' % re.escape(fld), src):
                 rep.ok(rid, key, 'collected by the variables property', prop.loc())
+            elif _collects_by_evaluation(cm, c, init, fld, bool(lists) and not holds, has_vars):
+                rep.ok(rid, key, 'collected by the variables property (evaluated on a node whose %s holds a marked variable)' % fld, prop.loc())
             else:
                 rep.violation(rid, key, 'variables occurring in %s.%s are not collected: they are used in the generated code without '
                               'being declared (NameError at run time) ' % (c.name, fld), prop.loc())
